@@ -1,6 +1,7 @@
 import Driver.Core
 import Driver.Pure
 import Driver.Wallet
+import Driver.Genesis
 /-
 One line per handler object. The first handler that understands a line answers it.
 -/
@@ -9,7 +10,8 @@ namespace ZV.Driver
 def registry : List Obj := [
   pureObj purePow,
   pureObj pureRpc,
-  pureObj pureWallet
+  pureObj pureWallet,
+  pureObj pureGenesis
 ]
 
 end ZV.Driver
